@@ -1913,7 +1913,7 @@ Lemma single_file_data_loss :
   4 + 2 * w + bits / 8 + 1 + (if r_crc rs then 2 else 0) + 2 * (if large then 8 else 4) <= r_max_packet rd ->
   0 <= k -> k * seg < zlen data ->
   0 < r_ack_ms rs -> 0 < r_ack_ms rd ->
-  (bits = 8 \/ bits = 16 \/ bits = 32) -> 0 <= seq0 < 2 ^ bits -> 1 <= seg ->
+  (bits = 8 \/ bits = 16 \/ bits = 32) -> 0 <= seq0 < 2 ^ bits -> 1 <= seg -> 6 <= derived ->
   (r_cktype rs = CK_CRC32 \/ r_cktype rs = CK_CRC32C \/ r_cktype rs = CK_NULL \/ r_cktype rs = CK_MODULAR) ->
   bytes_ok data = true ->
   l_id cd = pr_dst p -> get_remote (l_remotes cd) (l_id cs) = Some rd -> length dn = 1%nat ->
@@ -1924,7 +1924,7 @@ Lemma single_file_data_loss :
     delivered_ok dn data res = true /\ y_errs (fst res) = [].
 Proof.
   intros cs cd seq0 bits p rs rd sn dn data tick k w large derived seg
-         Hrs Hn Hsn Hdn Hmsgs Hmode Hls Hld Hnl Htick Hnak Hmp Hk Hklt Hacks Hackd Hbits Hseq Hseg Hck Hbytes Hid Hrd Hlen
+         Hrs Hn Hsn Hdn Hmsgs Hmode Hls Hld Hnl Htick Hnak Hmp Hk Hklt Hacks Hackd Hbits Hseq Hseg Hd6 Hck Hbytes Hid Hrd Hlen
          Hfh Hfs Hfd.
   destruct dn as [|x [|x' dn']]; try discriminate Hlen.
   set (fss := [(sn, File data)]).
@@ -1934,7 +1934,7 @@ Proof.
   destruct (ck_agree (r_cktype rs) data seg Hck Hseg) as (cks & C1 & C2).
   set (cf := mkSconf (l_id cs) w (pr_dst p) w seq0 (bits / 8) ACKED large (r_crc rs)).
   set (clo := match pr_closure p with Some b => b | None => r_closure rs end).
-  destruct (first_call_a cs seq0 bits fss p rs sn [x] data Hrs Hn Hlook Hmode Hbits Hseq Hseg)
+  destruct (first_call_a cs seq0 bits fss p rs sn [x] data Hrs Hn Hlook Hmode Hbits Hseq Hseg Hd6)
     as (s1 & s3 & P1 & P2 & HI).
   rewrite Hmsgs in P2.
   assert (Hdst : sc_dst cf = l_id cd) by (symmetry; exact Hid).
